@@ -10,7 +10,7 @@ from fractions import Fraction
 from ..cfg import CFG
 from ..consteval import ConstEval, EnumMember, FuncEval, NotConst, Sym
 from ..core import AnalysisError, own_nodes, short, unparse
-from ..rules import defs, exa, lint, shape
+from ..rules import nul, defs, exa, lint, shape
 from . import common
 
 EXPLANATION = (
@@ -416,5 +416,8 @@ def run(ctx):
   ctx.floor("DEF-init", "instance attributes of the STL classes", nd, 8)
   defs.check_def_local(ctx, fs, rule="DEF-local", exempt=common.DEF_EXEMPT)
   check_span_styles(ctx)
+  # the paragraph under construction does not exist before the first block that opens a subtitle
+  ncp = nul.check_sources(ctx, [m_ for m_ in ctx.ix.cls("ttconv.stl.datafile:DataFile").methods.values() if m_.name != "__init__"], nul.NullSources(fields={"cur_p_element"}), rule="NUL-field")
+  ctx.floor("NUL-field", "dereferences of DataFile.cur_p_element", ncp, 3)
   check_tcp_fields(ctx)
   common.check_history_independence(ctx, [n for n in ctx.ix.modules if n.startswith("ttconv.stl")] + ["ttconv.time_code"])
